@@ -38,18 +38,24 @@ DAY0 = 737425   # 2020-01-01
 def coq_runner(case):
     return 'run_nona' if case['kind'] == 'nona' else 'run_fill'
 
+def enc(c):
+    """finite values are carried as twice their value, so that half-integers stay integers in the model"""
+    e = 2 * c
+    assert e == int(e), c
+    return int(e)
+
 def _cell(c):
     if c is None: return 'None'
     if c == 'inf': return 'Some PInf'
     if c == '-inf': return 'Some NInf'
-    return 'Some (Fin (%d))' % c
+    return 'Some (Fin (%d))' % enc(c)
 def _lf(case):
     return '[' + '; '.join('((%d), [%s])' % (l, '; '.join(_cell(c) for c in r)) for l, r in zip(case['labels'], case['rows'])) + ']'
 def forms_of(case):
     return ['S', 'D', 'A1', 'A2'] if case['k'] == 1 else ['D', 'A2']
 _METH = {'ffill': 'MFfill', 'bfill': 'MBfill', 'backfill': 'MBfill', 'nona': 'MNona', 'fnna': 'MFnna', 'ffill_na': 'MFfillNa', 'ffill_0': 'MFfill0'}
 def _meth(m):
-    return '(MConst (Fin (%d)))' % m[1] if isinstance(m, list) else _METH[m]
+    return '(MConst (Fin (%d)))' % enc(m[1]) if isinstance(m, list) else _METH[m]
 def coq_case(case):
     forms = '[' + '; '.join('F' + f for f in forms_of(case)) + ']'
     if case['kind'] == 'nona':
@@ -64,19 +70,33 @@ def impl_setup():
     import numpy as np, pandas as pd
     from pyg_base import df_fillna, nona
 
+HOUR0 = datetime.datetime(2020, 1, 1, 0, 0, 0, 250000)      # intraday index: whole hours from here (sub-second offset)
+IDX = 'range'
 def _index(case):
+    i = None
     if case['idx'] == 'date':
-        return pd.DatetimeIndex([datetime.datetime.fromordinal(d) for d in case['labels']])
-    return None
+        i = pd.DatetimeIndex([datetime.datetime.fromordinal(d) for d in case['labels']])
+    elif case['idx'] == 'hour':
+        i = pd.DatetimeIndex([HOUR0 + datetime.timedelta(hours=h) for h in case['labels']])
+    elif case['idx'] == 'str':
+        i = pd.Index(['r%05d' % l for l in case['labels']])
+    if i is not None and case.get('iname'):
+        i = i.rename(case['iname'])
+    return i
+
+def _nm(x):
+    return tuple(x) if isinstance(x, list) else x        # JSON turns tuple names into lists
 
 def build(case, form):
     k = case['k']; n = len(case['rows'])
     a = np.array([[np.nan if c is None else float(c) for c in r] for r in case['rows']], dtype=float).reshape(n, k)
+    if case.get('dtype'):
+        a = a.astype(case['dtype'])
     idx = _index(case)
     if form == 'S':
-        return pd.Series(a[:, 0].copy(), index=idx)
+        return pd.Series(a[:, 0].copy(), index=idx, name=_nm(case.get('name')))
     if form == 'D':
-        return pd.DataFrame(a.copy(), index=idx)
+        return pd.DataFrame(a.copy(), index=idx, columns=None if case.get('cols') is None else [_nm(c) for c in case['cols']])
     if form == 'A1':
         return a[:, 0].copy()
     return a.copy()
@@ -87,9 +107,15 @@ def canon_cell(v):
         return 'NaN'
     if math.isinf(v):
         return 'inf' if v > 0 else '-inf'
-    return int(v) if v == int(v) and abs(v) < 2 ** 53 else 'x' + v.hex()
+    return int(2 * v) if 2 * v == int(2 * v) and abs(v) < 2 ** 51 else 'x' + v.hex()
 
 def canon_label(l):
+    if IDX == 'str':
+        return int(l[1:])
+    if IDX == 'hour':
+        d = l - HOUR0
+        q, r = divmod(d.days * 86400 * 10 ** 6 + d.seconds * 10 ** 6 + d.microseconds, 3600 * 10 ** 6)
+        return q if r == 0 else 'offgrid:' + str(l)
     if hasattr(l, 'toordinal'):
         if (l.hour, l.minute, l.second, l.microsecond) != (0, 0, 0, 0):
             return 'intraday:' + str(l)
@@ -111,13 +137,24 @@ def observe(x):
         return ['A2', None, [[canon_cell(v) for v in r] for r in x]]
     return ['?' + type(x).__name__, None, []]
 
+CFORM = 'int'
 def py_method(m):
-    return m[1] if isinstance(m, list) else m
+    if not isinstance(m, list):
+        return m
+    c = m[1]
+    if CFORM == 'float': return float(c)
+    if CFORM == 'np': return np.float64(c)
+    return int(c) if c == int(c) else float(c)
 def py_methods(case):
     ms = [py_method(m) for m in case['methods']]
+    if case.get('mlist') == 'tuple':
+        return tuple(ms)
     return ms[0] if (len(ms) == 1 and not case.get('mlist')) else ms
 
+POSITIONAL = False
 def call_fill(x, method, limit):
+    if POSITIONAL:
+        return df_fillna(x, method, 0, limit)
     return df_fillna(x, method, limit=limit)
 
 # ---- the property clauses, as plain loops over python lists (cells: int or 'NaN')
@@ -170,7 +207,7 @@ def expected_single(m, limit, labels, rows, k):
     elif isinstance(m, list):
         if limit is not None:
             return None
-        new = [[m[1] if v == 'NaN' else v for v in c] for c in cols]
+        new = [[enc(m[1]) if v == 'NaN' else v for v in c] for c in cols]
     else:
         raise ValueError(m)
     return list(labels), rows_of(new, n)
@@ -214,6 +251,8 @@ def non_nan_kept(lab_in, rows_in, lab_out, rows_out):
     return None
 
 def impl(case):
+    global IDX, CFORM, POSITIONAL
+    IDX = case['idx']; CFORM = case.get('cform', 'int'); POSITIONAL = bool(case.get('positional'))
     forms = forms_of(case)
     k = case['k']
     obs = []; viol = None; status = 'ok'
@@ -249,6 +288,15 @@ def impl(case):
             fail('%s(%s) modified its argument: %r -> %r' % (what, form, before[1:], after[1:]))
         if o[0] != form:
             fail('%s(%s) returned a %s' % (what, form, o[0]))
+        # names are part of "rows and values otherwise untouched": Series name, column labels, index name
+        if form == 'S' and isinstance(r, pd.Series) and r.name != x.name:
+            fail('%s(Series named %r) returned a Series named %r' % (what, x.name, r.name))
+        if form == 'D' and isinstance(r, pd.DataFrame) and ncols(r) == k and list(r.columns) != list(x.columns):
+            fail('%s(DataFrame with columns %r) returned columns %r' % (what, list(x.columns), list(r.columns)))
+        if form in 'SD' and hasattr(r, 'index') and r.index.name != x.index.name:
+            fail('%s: index name %r became %r' % (what, x.index.name, r.index.name))
+        if form in 'SD' and len(o[2]) and not case.get('dtype') and str(getattr(r, 'dtype', None) or r.dtypes.iloc[0]) != 'float64':
+            fail('%s: float64 data came back as %s' % (what, getattr(r, 'dtype', None) or r.dtypes.iloc[0]))
         lab_in = before[1] if before[1] is not None else list(range(len(before[2])))
         # ---- clause-by-clause expectations on the real output
         if case['kind'] == 'fill':
@@ -261,7 +309,7 @@ def impl(case):
                 exp = expected_single(m, case['limit'], lab_in, before[2], k)
                 got_lab = o[1] if o[1] is not None else None
                 if exp is None:
-                    w = check_const_limit(m[1], case['limit'], before[2], o[2], k)
+                    w = check_const_limit(enc(m[1]), case['limit'], before[2], o[2], k)
                     if w: fail('%s form: %s' % (form, w))
                 else:
                     if o[2] != exp[1] or (got_lab is not None and got_lab != exp[0]):
@@ -285,7 +333,7 @@ def impl(case):
                 w = non_nan_kept(lab_in, before[2], o[1] if o[1] is not None else list(range(len(o[2]))), o[2])
                 if w: fail('%s form: %s' % (form, w))
         else:
-            v = 'NaN' if case['value'] is None else case['value']
+            v = 'NaN' if case['value'] is None else enc(case['value'])
             n = len(before[2])
             masked = [all(c == v for c in r) for r in before[2]]
             keep = [i for i in range(n) if not masked[i]]
@@ -299,6 +347,23 @@ def impl(case):
             if o[2] != exp_rows or (o[1] is not None and o[1] != exp_lab):
                 fail('%s form: nona(value=%r, edge=%r) on %r kept index %r values %r; the rows to keep are %r %r'
                      % (form, case['value'], case['edge'], before[2], o[1], o[2], exp_lab if o[1] is not None else None, exp_rows))
+    # ---- a dict / list of timeseries is handled element by element
+    scalar_method = case['kind'] == 'nona' or (len(case['methods']) == 1 and not case.get('mlist'))   # list arguments are zipped with the elements by @loop
+    if case.get('loop') and scalar_method and viol is None and 'S' in per_form:
+        try:
+            xs = {'a': build(case, 'S'), 'b': build(case, 'D')}
+            if case['kind'] == 'nona':
+                rd = nona(xs); rl = nona(list(xs.values()))
+            else:
+                rd = call_fill(xs, py_methods(case), case['limit']); rl = call_fill(list(xs.values()), py_methods(case), case['limit'])
+            if not isinstance(rd, dict) or list(rd) != ['a', 'b'] or not isinstance(rl, list) or len(rl) != 2:
+                fail('dict / list of timeseries: result is %s / %s' % (type(rd).__name__, type(rl).__name__))
+            elif case['kind'] != 'nona' or (case['edge'] is None and case['value'] is None):
+                for got, f in ((rd['a'], 'S'), (rd['b'], 'D'), (rl[0], 'S'), (rl[1], 'D')):
+                    if observe(got) != per_form[f][1]:
+                        fail('dict / list of timeseries: element result %r differs from the single call %r' % (observe(got)[1:], per_form[f][1][1:]))
+        except Exception as e:
+            fail('dict / list of timeseries raised %s: %s' % (type(e).__name__, str(e)[:100]))
     # ---- ndarray result == values of the pandas result
     for af, pf in (('A1', 'S'), ('A2', 'D')):
         if af in per_form and pf in per_form:
@@ -317,21 +382,39 @@ def shape(case):
     ms = case['methods']
     name = lambda m: 'const' if isinstance(m, list) else m
     lim = 'L' if case['limit'] is not None else 'U'
+    extra = (':long' if case.get('long') else '') + (':' + case['dtype'] if case.get('dtype') else '')
     if len(ms) == 1:
-        return 'single:%s:%s:k%d' % (name(ms[0]), lim, min(case['k'], 2))
-    return 'list%d:%s:k%d' % (len(ms), lim, min(case['k'], 2))
+        return 'single:%s:%s:k%d%s' % (name(ms[0]), lim, min(case['k'], 2), extra)
+    return 'list%d:%s:k%d%s' % (len(ms), lim, min(case['k'], 2), extra)
 
 # ------------------------------------------------------------------ generation
 def mk(rows, k, idx, rng=None, **kw):
     n = len(rows)
-    if idx == 'date':
-        labels = []; d = DAY0
+    if idx != 'range':
+        # dates: also far past / far future (1698, 1970, 2248); 'hour': intraday stamps with a sub-second offset; 'str': text labels
+        d = (DAY0 if rng is None else rng.choice([DAY0, DAY0, 719163, 620000, 821000])) if idx == 'date' else (0 if rng is None else rng.choice([0, -50, 100000] if idx == 'hour' else [0, 100000]))
+        labels = []
         for i in range(n):
             d += 1 if rng is None else rng.choice([1, 1, 1, 2, 3, 7])
             labels.append(d)
     else:
         labels = list(range(n))
     return dict(kw, k=k, rows=rows, labels=labels, idx=idx)
+
+RLIMITS = [None, 1, 2, 3, 5, 10]
+IDXS = ['range', 'date', 'date', 'hour', 'str']
+def decorate(rng, c):
+    """names, spellings and call forms that must not matter"""
+    r = rng.random
+    if r() < 0.4: c['name'] = rng.choice(['px', 'a b', 0, ('t', 1)])
+    if r() < 0.5: c['cols'] = rng.choice([['a', 'b', 'c'], ['z', 'y', 'x'], [10, 5, 7], ['a', 'a', 'b'], [('p', 1), ('p', 2), ('q', 1)]])[:c['k']]
+    if r() < 0.3 and c['idx'] != 'range': c['iname'] = rng.choice(['date', 't'])
+    if c['kind'] == 'fill':
+        if r() < 0.4: c['cform'] = rng.choice(['float', 'np'])
+        if r() < 0.3: c['positional'] = True
+        if r() < 0.15 and c['methods']: c['mlist'] = 'tuple'
+    if r() < 0.15: c['loop'] = True
+    return c
 
 def vec_rows(mask):
     return [[None if b else 10 + i] for i, b in enumerate(mask)]
@@ -345,7 +428,11 @@ def rand_rows(rng, n, k):
     style = rng.random()
     p = rng.choice([0.2, 0.5, 0.8])
     q = rng.choice([0.0, 0.15, 0.4])             # share of +-inf among the non-NaN cells
-    rows = [[None if rng.random() < p else (rng.choice(INFS) if rng.random() < q else 10 + i * k + j) for j in range(k)] for i in range(n)]
+    def val(i, j):
+        if rng.random() < q: return rng.choice(INFS)
+        if rng.random() < 0.15: return rng.choice([0, 0, -(5 + i), i + 0.5, -2.5, 2 ** 40 + i])     # zeros, negatives, half-integers, large
+        return 10 + i * k + j
+    rows = [[None if rng.random() < p else val(i, j) for j in range(k)] for i in range(n)]
     if q and n:
         for _ in range(rng.randrange(0, 3)):      # rows that are all inf, or inf mixed with NaN only
             i = rng.randrange(n)
@@ -362,7 +449,7 @@ def rand_rows(rng, n, k):
 
 def rand_method(rng):
     m = rng.choice(SINGLES + ['backfill'])
-    return ['c', rng.choice([0, 7, -3])] if isinstance(m, list) else m
+    return ['c', rng.choice([0, 0, 7, -3, 0.5, -1.5])] if isinstance(m, list) else m
 
 def gen_cases(rng, tier):
     cases = []
@@ -381,7 +468,7 @@ def gen_cases(rng, tier):
             if 'P' not in pat and 'M' not in pat:
                 continue
             for m in SINGLES:
-                for lim in (LIMITS if (not quick or n <= 3) else [None, 1]):
+                for lim in (LIMITS if (not quick or n <= 2) else [None, 1 + t % 3] if n == 3 else [LIMITS[t % 4]]):
                     t += 1
                     cases.append(mk(tern_rows(pat), 1, 'date' if t % 3 == 0 else 'range', kind='fill', methods=[m], limit=lim, mlist=(t % 5 == 0)))
     # B. method lists
@@ -389,7 +476,7 @@ def gen_cases(rng, tier):
         for _ in range(1800):
             n = rng.choice([rng.randrange(0, 7), rng.randrange(0, 11)]); k = rng.choice([1, 1, 2, 3])
             ms = [rand_method(rng) for _ in range(rng.choice([2, 2, 2, 3, 0]))]
-            cases.append(mk(rand_rows(rng, n, k), k, rng.choice(['range', 'date']), rng, kind='fill', methods=ms, limit=rng.choice(LIMITS)))
+            cases.append(decorate(rng, mk(rand_rows(rng, n, k), k, rng.choice(IDXS), rng, kind='fill', methods=ms, limit=rng.choice(RLIMITS))))
     else:
         for n in range(0, 7):
             for mask in itertools.product([False, True], repeat=n):
@@ -402,12 +489,31 @@ def gen_cases(rng, tier):
         for _ in range(12000):
             n = rng.randrange(0, 11); k = rng.choice([1, 2, 3])
             ms = [rand_method(rng) for _ in range(rng.choice([2, 2, 3, 4, 0]))]
-            cases.append(mk(rand_rows(rng, n, k), k, rng.choice(['range', 'date']), rng, kind='fill', methods=ms, limit=rng.choice(LIMITS)))
+            cases.append(decorate(rng, mk(rand_rows(rng, n, k), k, rng.choice(IDXS), rng, kind='fill', methods=ms, limit=rng.choice(RLIMITS))))
     # C. frames and longer vectors, single methods
     for _ in range(1500 if quick else 20000):
         k = rng.choice([1, 2, 2, 3]); n = rng.randrange(0, 11) if k > 1 else rng.randrange(7, 11)
-        cases.append(mk(rand_rows(rng, n, k), k, rng.choice(['range', 'date']), rng, kind='fill', methods=[rand_method(rng)],
-                        limit=rng.choice(LIMITS), mlist=rng.random() < 0.2))
+        cases.append(decorate(rng, mk(rand_rows(rng, n, k), k, rng.choice(IDXS), rng, kind='fill', methods=[rand_method(rng)],
+                        limit=rng.choice(RLIMITS), mlist=rng.random() < 0.2)))
+    # C2. long vectors / frames (100-300 rows), long NaN runs, limits below, inside and beyond the run lengths
+    for _ in range(30 if quick else 400):
+        n = rng.choice([101, 150, 257] if quick else [101, 150, 257, 300]); k = rng.choice([1, 1, 2])
+        rows = []; i = 0
+        while len(rows) < n:
+            run = rng.choice([1, 2, 7, 30, 60]); nan = rng.random() < 0.5
+            for _ in range(run):
+                rows.append([None if (nan or rng.random() < 0.1) else 10 + len(rows) * k + j for j in range(k)])
+        rows = rows[:n]
+        ms = [rand_method(rng) for _ in range(rng.choice([1, 1, 1, 2]))]
+        cases.append(decorate(rng, mk(rows, k, rng.choice(IDXS), rng, kind='fill', methods=ms, limit=rng.choice([None, 1, 5, 29, 30, 50, 1000]), long=True)))
+    # C3. other dtypes: int64 (no NaN possible: every method is the identity on values), float32
+    for _ in range(150 if quick else 1500):
+        k = rng.choice([1, 2]); n = rng.randrange(0, 8); dt_ = rng.choice(['int64', 'float32'])
+        rows = [[(3 + i * k + j) if (dt_ == 'int64' or rng.random() < 0.6) else None for j in range(k)] for i in range(n)]
+        if rng.random() < 0.5:
+            cases.append(mk(rows, k, rng.choice(IDXS), rng, kind='fill', methods=[rand_method(rng) for _ in range(rng.choice([1, 1, 2]))], limit=rng.choice(RLIMITS), dtype=dt_))
+        else:
+            cases.append(mk(rows, k, rng.choice(IDXS), rng, kind='nona', value=rng.choice([None, None, 3]), edge=rng.choice([None, 1, -1]), dtype=dt_))
     # D. nona(value, edge)
     for n in range(0, 6):
         for mask in itertools.product([False, True], repeat=n):
@@ -429,21 +535,21 @@ def gen_cases(rng, tier):
             elif r < 0.45: rows.append([rng.choice(INFS) for _ in range(k)])
             elif r < 0.7: rows.append([rng.choice(INFS + [None]) for _ in range(k)])
             else: rows.append([rng.choice([None, 10 + i, 'inf', '-inf', 0]) for _ in range(k)])
-        cases.append(mk(rows, k, rng.choice(['range', 'date']), rng, kind='nona', value=rng.choice([None, None, None, 0]), edge=rng.choice([None, 1, -1])))
+        cases.append(decorate(rng, mk(rows, k, rng.choice(IDXS), rng, kind='nona', value=rng.choice([None, None, None, 0]), edge=rng.choice([None, 1, -1]))))
     for _ in range(500 if quick else 8000):
         k = rng.choice([1, 2, 3]); n = rng.randrange(0, 9)
         value = rng.choice([None, None, 0, 1])
         p = rng.choice([0.3, 0.6, 0.9])
         target = None if value is None else value
         rows = [[target if rng.random() < p else rng.choice([None, 0, 1, 2, 'inf', '-inf']) for _ in range(k)] for _ in range(n)]
-        cases.append(mk(rows, k, rng.choice(['range', 'date']), rng, kind='nona', value=value, edge=rng.choice([None, 1, -1])))
+        cases.append(decorate(rng, mk(rows, k, rng.choice(IDXS), rng, kind='nona', value=value, edge=rng.choice([None, 1, -1]))))
     return cases
 
 def shrink(case):
     n = len(case['rows'])
     for i in range(n):
         rows = case['rows'][:i] + case['rows'][i + 1:]
-        labels = case['labels'][:i] + case['labels'][i + 1:] if case['idx'] == 'date' else list(range(n - 1))
+        labels = case['labels'][:i] + case['labels'][i + 1:] if case['idx'] != 'range' else list(range(n - 1))
         yield dict(case, rows=rows, labels=labels)
     if case['k'] > 1:
         for j in range(case['k']):
@@ -457,8 +563,11 @@ def shrink(case):
             yield dict(case, limit=None)
             if case['limit'] > 1:
                 yield dict(case, limit=case['limit'] - 1)
-    if case['idx'] == 'date':
+    if case['idx'] != 'range':
         yield dict(case, idx='range', labels=list(range(n)))
+    for key in ('name', 'cols', 'iname', 'cform', 'positional', 'loop', 'dtype'):
+        if case.get(key):
+            yield {a: b for a, b in case.items() if a != key}
 
 LEVEL_TEXT = ('machine-checked Coq theorems (C12_*, every vector / frame length, every NaN pattern, every limit and method list, by induction): '
               'ffill/bfill fill a NaN at distance k from the nearest earlier/later observation iff k <= limit, constants, method lists as a fold, '
